@@ -40,12 +40,14 @@ theorem halfUlp_nonneg (e : ℕ) : 0 ≤ halfUlp e := by
 /-! ## line-level discounts and charges -/
 
 /-- the covered class of line discounts / charges: no rate × quantity, and either a non-zero
-percentage of the line sum of magnitude at most 100 % (no explicit base), or a fixed amount
-written with at most currency + 2 decimals (not finer than the working precision) -/
+percentage of magnitude at most 100 % of the line sum or of an explicit base (base with at most
+currency + 2 decimals), or a fixed amount (no percentage, or a zero one) written with at most
+currency + 2 decimals (not finer than the working precision) -/
 def AdjOk (c : ℕ) (d : LineAdj) : Prop :=
   d.rate = none ∧
-  ((∃ p, d.percent = some p ∧ pctIsZero p = false ∧ d.base = none ∧ |p.amount.toRat| ≤ 1) ∨
-   (d.percent = none ∧ d.amount.exp ≤ c + 2))
+  ((∃ p, d.percent = some p ∧ pctIsZero p = false ∧ |p.amount.toRat| ≤ 1 ∧
+      (d.base = none ∨ ∃ b, d.base = some b ∧ b.exp ≤ c + 2)) ∨
+   ((d.percent = none ∨ ∃ p, d.percent = some p ∧ pctIsZero p = true) ∧ d.amount.exp ≤ c + 2))
 
 /-- the amount `calculateLineDiscounts` stores for one row -/
 def adjAmt (c : ℕ) (sum : Amount) (d : LineAdj) : Amount :=
@@ -73,9 +75,11 @@ theorem chAmt_eq (c : ℕ) (qty sum : Amount) (d : LineAdj) (h : d.rate = none) 
 theorem adjAmt_ok (c : ℕ) (sum : Amount) (d : LineAdj) (hd : AdjOk c d) (hs : c + 2 ≤ sum.exp)
     (s q : ℚ) (isCharge : Bool) :
     (adjAmt c sum d).exp ≤ sum.exp ∧
-    |(adjAmt c sum d).toRat - Spec.C01.adjQ s q isCharge d| ≤ |sum.toRat - s| + halfUlp sum.exp := by
+    |(adjAmt c sum d).toRat - Spec.C01.adjQ s q isCharge d| ≤ |sum.toRat - s| + halfUlp (c + 2) := by
   obtain ⟨hrate, hcase⟩ := hd
-  rcases hcase with ⟨p, hp, hz, hb, hle⟩ | ⟨hp, he⟩
+  have h0 := halfUlp_nonneg (c + 2)
+  have ha := abs_nonneg (sum.toRat - s)
+  rcases hcase with ⟨p, hp, hz, hle, hb | ⟨b, hb, hbe⟩⟩ | ⟨hp, he⟩
   · have hval : adjAmt c sum d = sum.mulX p.amount := by
       simp only [adjAmt, adjUp, adjPct, hp, hz, hb, pctOf, exact_mul, Bool.false_eq_true, if_false]
       exact up_self _ c (by rw [mulX_exp]; omega)
@@ -84,7 +88,7 @@ theorem adjAmt_ok (c : ℕ) (sum : Amount) (d : LineAdj) (hd : AdjOk c d) (hs : 
       cases isCharge <;> simp [Spec.C01.adjQ, hrate, hp, hb, hz', Spec.C01.pq]
     rw [hval, hq]
     refine ⟨le_of_eq rfl, ?_⟩
-    have h1 := mulX_err sum p.amount
+    have h1 := le_trans (mulX_err sum p.amount) (halfUlp_mono _ _ hs)
     have e : (sum.mulX p.amount).toRat - s * p.amount.toRat =
         ((sum.mulX p.amount).toRat - sum.toRat * p.amount.toRat) + (sum.toRat - s) * p.amount.toRat := by ring
     rw [e]
@@ -95,15 +99,32 @@ theorem adjAmt_ok (c : ℕ) (sum : Amount) (d : LineAdj) (hd : AdjOk c d) (hs : 
             mul_le_mul_of_nonneg_left hle (abs_nonneg _)
         _ = |sum.toRat - s| := mul_one _
     linarith
+  · have hu : up (up (up b c) (c + E)) c = up (up b c) (c + E) := up_self _ _ (by rw [up_exp]; omega)
+    have hval : adjAmt c sum d = (up (up b c) (c + E)).mulX p.amount := by
+      simp only [adjAmt, adjUp, adjPct, hp, hz, hb, pctOf, exact_mul, applyRule, Bool.false_eq_true, if_false, hu]
+      exact up_self _ c (by rw [mulX_exp, up_exp]; omega)
+    have hq : Spec.C01.adjQ s q isCharge d = b.toRat * p.amount.toRat := by
+      have hz' : (p.amount.value == 0) = false := hz
+      cases isCharge <;> simp [Spec.C01.adjQ, hrate, hp, hb, hz', Spec.C01.pq]
+    rw [hval, hq]
+    refine ⟨by simp only [mulX_exp, up_exp, E]; omega, ?_⟩
+    have h1 := mulX_err (up (up b c) (c + E)) p.amount
+    rw [up_toRat, up_toRat] at h1
+    have h2 : halfUlp (up (up b c) (c + E)).exp ≤ halfUlp (c + 2) :=
+      halfUlp_mono _ _ (by simp only [up_exp, E]; omega)
+    linarith
   · have hval : adjAmt c sum d = up d.amount c := by
-      simp only [adjAmt, adjUp, adjPct, hp]
+      rcases hp with hp | ⟨p, hp, hz⟩
+      · simp only [adjAmt, adjUp, adjPct, hp]
+      · simp only [adjAmt, adjUp, adjPct, hp, hz, if_true]
     have hq : Spec.C01.adjQ s q isCharge d = d.amount.toRat := by
-      cases isCharge <;> simp [Spec.C01.adjQ, hrate, hp]
+      rcases hp with hp | ⟨p, hp, hz⟩
+      · cases isCharge <;> simp [Spec.C01.adjQ, hrate, hp]
+      · have hz' : (p.amount.value == 0) = true := hz
+        cases isCharge <;> simp [Spec.C01.adjQ, hrate, hp, hz']
     rw [hval, hq, up_toRat, up_exp]
     refine ⟨by omega, ?_⟩
     simp only [sub_self, abs_zero]
-    have := halfUlp_nonneg sum.exp
-    have := abs_nonneg (sum.toRat - s)
     linarith
 
 theorem lineDiscounts_cons_snd (o : Ops) (r : Rule) (c : ℕ) (sum : Amount) (d : LineAdj) (ds : List LineAdj) (total : Amount) :
@@ -454,14 +475,114 @@ theorem exactQ_total (d : Doc) :
 
 /-! ## the document class of step 1 and what `pre` guarantees for it -/
 
+/-- a document-level discount / charge of the covered class: a non-zero percentage of at most
+100 % of the document sum or of an explicit base (base with at most currency + 2 decimals), or a
+fixed amount (no percentage, or a zero one) with at most currency + 2 decimals -/
+def DocAdjOk (c : ℕ) (x : DocAdj) : Prop :=
+  (∃ p, x.percent = some p ∧ pctIsZero p = false ∧ |p.amount.toRat| ≤ 1 ∧
+    (x.base = none ∨ ∃ b, x.base = some b ∧ b.exp ≤ c + 2)) ∨
+  ((x.percent = none ∨ ∃ p, x.percent = some p ∧ pctIsZero p = true) ∧ x.amount.exp ≤ c + 2)
+
+theorem PctOnly.ok {x : DocAdj} (c : ℕ) (h : PctOnly x) : DocAdjOk c x := by
+  obtain ⟨p, hp, hz, hb, hle⟩ := h
+  exact Or.inl ⟨p, hp, hz, hle, Or.inl hb⟩
+
+/-- one document discount / charge: not finer than the sum, and within |sum − S| + ½ulp of its
+exact value on the exact sum `S` -/
+theorem docAdj_ok (c : ℕ) (sum : Amount) (x : DocAdj) (hx : DocAdjOk c x) (hs : c + 2 ≤ sum.exp) (S : ℚ) :
+    (docAdj exactOps .precise c sum x).amount.exp ≤ sum.exp ∧
+    |(docAdj exactOps .precise c sum x).amount.toRat - Spec.C01.docAdjQ S x| ≤
+      |sum.toRat - S| + halfUlp (c + 2) := by
+  have h0 := halfUlp_nonneg (c + 2)
+  have ha := abs_nonneg (sum.toRat - S)
+  rcases hx with ⟨p, hp, hz, hle, hb | ⟨b, hb, hbe⟩⟩ | ⟨hp, he⟩
+  · have hval : (docAdj exactOps .precise c sum x).amount = sum.mulX p.amount := by
+      simp only [docAdj, hp, hz, hb, applyRule, pctOf, exact_mul, Bool.false_eq_true, if_false]
+      exact up_self _ c (by rw [mulX_exp]; omega)
+    have hz' : (p.amount.value == 0) = false := hz
+    have hq : Spec.C01.docAdjQ S x = S * p.amount.toRat := by
+      simp [Spec.C01.docAdjQ, hp, hb, hz', Spec.C01.pq]
+    rw [hval, hq]
+    refine ⟨le_of_eq rfl, ?_⟩
+    have h1 := le_trans (mulX_err sum p.amount) (halfUlp_mono _ _ hs)
+    have e : (sum.mulX p.amount).toRat - S * p.amount.toRat =
+        ((sum.mulX p.amount).toRat - sum.toRat * p.amount.toRat) + (sum.toRat - S) * p.amount.toRat := by ring
+    rw [e]
+    refine le_trans (abs_add_le _ _) ?_
+    have h2 : |(sum.toRat - S) * p.amount.toRat| ≤ |sum.toRat - S| := by
+      rw [abs_mul]
+      calc |sum.toRat - S| * |p.amount.toRat| ≤ |sum.toRat - S| * 1 :=
+            mul_le_mul_of_nonneg_left hle (abs_nonneg _)
+        _ = |sum.toRat - S| := mul_one _
+    linarith
+  · have hu : up (up b (c + E)) c = up b (c + E) := up_self _ _ (by rw [up_exp]; omega)
+    have hval : (docAdj exactOps .precise c sum x).amount = (up b (c + E)).mulX p.amount := by
+      simp only [docAdj, hp, hz, hb, applyRule, pctOf, exact_mul, Bool.false_eq_true, if_false, hu]
+      exact up_self _ c (by rw [mulX_exp, up_exp]; omega)
+    have hz' : (p.amount.value == 0) = false := hz
+    have hq : Spec.C01.docAdjQ S x = b.toRat * p.amount.toRat := by
+      simp [Spec.C01.docAdjQ, hp, hb, hz', Spec.C01.pq]
+    rw [hval, hq]
+    refine ⟨by simp only [mulX_exp, up_exp, E]; omega, ?_⟩
+    have h1 := mulX_err (up b (c + E)) p.amount
+    rw [up_toRat] at h1
+    have h2 : halfUlp (up b (c + E)).exp ≤ halfUlp (c + 2) := halfUlp_mono _ _ (by simp only [up_exp, E]; omega)
+    linarith
+  · have hval : (docAdj exactOps .precise c sum x).amount = up x.amount c := by
+      rcases hp with hp | ⟨p, hp, hz⟩
+      · simp only [docAdj, hp, applyRule]
+      · simp only [docAdj, hp, hz, applyRule, if_true]
+    have hq : Spec.C01.docAdjQ S x = x.amount.toRat := by
+      rcases hp with hp | ⟨p, hp, hz⟩
+      · simp [Spec.C01.docAdjQ, hp]
+      · have hz' : (p.amount.value == 0) = true := hz
+        simp [Spec.C01.docAdjQ, hp, hz']
+    rw [hval, hq, up_toRat, up_exp]
+    refine ⟨by omega, ?_⟩
+    simp only [sub_self, abs_zero]
+    linarith
+
+/-- the discount / charge total: never finer than the sum, every row within |sum − S| + ½ulp -/
+theorem adjSum_ok (c : ℕ) (sum : Amount) (xs : List DocAdj) (S : ℚ) (hx : ∀ x ∈ xs, DocAdjOk c x)
+    (hs : c + 2 ≤ sum.exp) :
+    (∀ s, adjSum exactOps c (xs.map (docAdj exactOps .precise c sum)) = some s → s.exp ≤ sum.exp) ∧
+    |optQ (adjSum exactOps c (xs.map (docAdj exactOps .precise c sum))) - (xs.map (Spec.C01.docAdjQ S)).sum| ≤
+      xs.length * (|sum.toRat - S| + halfUlp (c + 2)) := by
+  constructor
+  · intro s h
+    unfold adjSum at h
+    split at h
+    · simp at h
+    · injection h with h
+      rw [← h]
+      apply foldl_accum_exp_le _ _ _ (show c ≤ sum.exp by omega)
+      intro y hy
+      simp only [List.mem_map] at hy
+      obtain ⟨a, ha, rfl⟩ := hy
+      obtain ⟨x, hxm, rfl⟩ := ha
+      exact (docAdj_ok c sum x (hx x hxm) hs S).1
+  · have hq : optQ (adjSum exactOps c (xs.map (docAdj exactOps .precise c sum))) =
+        (xs.map (fun x => (docAdj exactOps .precise c sum x).amount.toRat)).sum := by
+      unfold optQ adjSum
+      split
+      · rename_i he
+        have : xs.map (docAdj exactOps .precise c sum) = [] := by simpa using he
+        have hxs : xs = [] := by simpa using this
+        simp [hxs]
+      · simp only [Option.map_some, Option.getD_some]
+        rw [foldl_accum_toRat]
+        simp [Amount.toRat, List.map_map, Function.comp_def]
+    rw [hq]
+    exact list_sum_diff_le xs _ _ _ (fun x hxm => (docAdj_ok c sum x (hx x hxm) hs S).2)
+
 /-- precise rule, at least one line, every line of the class `AdjLine`, every document discount
-and charge a percentage (≤ 100 %) of the sum -/
+and charge of the class `DocAdjOk` -/
 structure DocA (d : Doc) : Prop where
   rule : d.rule = .precise
   ne : d.lines ≠ []
   lines : ∀ l ∈ d.lines, AdjLine d.c l
-  discounts : ∀ x ∈ d.discounts, PctOnly x
-  charges : ∀ x ∈ d.charges, PctOnly x
+  discounts : ∀ x ∈ d.discounts, DocAdjOk d.c x
+  charges : ∀ x ∈ d.charges, DocAdjOk d.c x
 
 /-- weight of `total` before the included tax is taken out: the lines' weight carried through
 1 − Σ discount % + Σ charge %, plus one rounding per document discount / charge -/
@@ -498,13 +619,12 @@ theorem pre_spec (d : Doc) (p : Pre) (hd : DocA d) (h : pre exactOps d = .ok p) 
   rw [← hsum] at hdis hch
   have hrel := calcLines_rel d.cur d.c d.rates d.lines p.lines hd.lines hl
   have hsexp : d.c + 2 ≤ p.sum.exp := by rw [hsum]; exact rel_sum_exp d.cur d.c d.rates _ _ hrel hd.ne
-  have hcs' : d.c ≤ p.sum.exp := by omega
   have hS := rel_sum d.cur d.c d.rates _ _ hrel
   have hsq : p.sum.toRat = ((p.lines.filterMap (·.total)).map Amount.toRat).sum := by
     rw [hsum]; unfold lineSum; rw [foldl_accum_toRat]; simp [Amount.toRat]
   rw [← hsq, ← exactQ_sum] at hS
-  obtain ⟨hde, hdq⟩ := adjSum_pct d.c p.sum d.discounts hd.discounts hcs'
-  obtain ⟨hce, hcq⟩ := adjSum_pct d.c p.sum d.charges hd.charges hcs'
+  obtain ⟨hde, hdq⟩ := adjSum_ok d.c p.sum d.discounts (Spec.C01.exactQ d).sum hd.discounts hsexp
+  obtain ⟨hce, hcq⟩ := adjSum_ok d.c p.sum d.charges (Spec.C01.exactQ d).sum hd.charges hsexp
   rw [← hdis] at hde hdq
   rw [← hch] at hce hcq
   rw [← hds] at hde hdq
@@ -512,23 +632,24 @@ theorem pre_spec (d : Doc) (p : Pre) (hd : DocA d) (h : pre exactOps d = .ok p) 
   obtain ⟨te, tq⟩ := total2_toRat p.sum p.dsum p.csum hde hce
   rw [← ht2] at te tq
   refine ⟨hrel, hsum, hsexp, hS, hdis, hch, hrows, te, ?_⟩
-  rw [tq, exactQ_discount, exactQ_charge, docAdjQ_sum_pct _ _ hd.discounts, docAdjQ_sum_pct _ _ hd.charges]
-  have hh : halfUlp p.sum.exp ≤ halfUlp (d.c + 2) := halfUlp_mono _ _ hsexp
+  rw [tq, exactQ_discount, exactQ_charge]
   have h0 := halfUlp_nonneg (d.c + 2)
   have hkd : (0 : ℚ) ≤ (d.discounts.length : ℚ) := by positivity
   have hkc : (0 : ℚ) ≤ (d.charges.length : ℚ) := by positivity
-  have b := total2_bound p.sum.toRat (Spec.C01.exactQ d).sum (d.discounts.map pctQ).sum (d.charges.map pctQ).sum
-    (optQ p.dsum) (optQ p.csum) (sumW d.lines : ℚ) d.discounts.length d.charges.length (halfUlp (d.c + 2)) hS
-    (le_trans hdq (mul_le_mul_of_nonneg_left hh hkd)) (le_trans hcq (mul_le_mul_of_nonneg_left hh hkc))
-    (pctQ_sum_abs _ hd.discounts) (pctQ_sum_abs _ hd.charges) h0 (by positivity)
-  have e : (Spec.C01.exactQ d).sum - (Spec.C01.exactQ d).sum * (d.discounts.map pctQ).sum
-      + (Spec.C01.exactQ d).sum * (d.charges.map pctQ).sum =
-      (Spec.C01.exactQ d).sum * (1 - (d.discounts.map pctQ).sum + (d.charges.map pctQ).sum) := by ring
+  set S := (Spec.C01.exactQ d).sum
+  set D := (d.discounts.map (Spec.C01.docAdjQ S)).sum
+  set C := (d.charges.map (Spec.C01.docAdjQ S)).sum
+  have hrow : |p.sum.toRat - S| + halfUlp (d.c + 2) ≤ (1 + (sumW d.lines : ℚ)) * halfUlp (d.c + 2) := by linarith
+  have hdq' := le_trans hdq (mul_le_mul_of_nonneg_left hrow hkd)
+  have hcq' := le_trans hcq (mul_le_mul_of_nonneg_left hrow hkc)
+  have e : p.sum.toRat - optQ p.dsum + optQ p.csum - (S - D + C) =
+      (p.sum.toRat - S) - (optQ p.dsum - D) + (optQ p.csum - C) := by ring
   rw [e]
-  refine le_trans b (le_of_eq ?_)
+  have t1 := abs_add_le ((p.sum.toRat - S) - (optQ p.dsum - D)) (optQ p.csum - C)
+  have t2 := abs_sub (p.sum.toRat - S) (optQ p.dsum - D)
   unfold totalW
   push_cast
-  ring
+  nlinarith
 
 /-! ## the tax summary under the precise rule, prices not including tax -/
 
@@ -729,26 +850,32 @@ theorem addToCats_w (c E : ℕ) (cb : Combo) (t : Amount) (cats : List CatTotal)
         · exact i2 x hx
 
 theorem foldCombos_w (c E : ℕ) (t : Amount) (cbs : List Combo) (cats : List CatTotal)
-    (hcb : ∀ cb ∈ cbs, ComboOk cb) (ht1 : c + 2 ≤ t.exp) (ht2 : t.exp ≤ E) (hinv : CatsInv c E cats) :
+    (hcb : ∀ cb ∈ cbs, ComboOk cb) (ht1 : cbs ≠ [] → c + 2 ≤ t.exp) (ht2 : t.exp ≤ E) (hinv : CatsInv c E cats) :
     catsQ (cbs.foldl (fun cats cb => addToCats exactOps .precise c cb t cats) cats) =
       catsQ cats + (cbs.map (comboQ t.toRat)).sum ∧
     CatsInv c E (cbs.foldl (fun cats cb => addToCats exactOps .precise c cb t cats) cats) := by
   induction cbs generalizing cats with
   | nil => simp [hinv]
   | cons cb cbs ih =>
-    obtain ⟨h1, h2⟩ := addToCats_w c E cb t cats (hcb cb (by simp)) ht1 ht2 hinv
-    obtain ⟨i1, i2⟩ := ih (addToCats exactOps .precise c cb t cats) (fun x hx => hcb x (by simp [hx])) h2
+    have ht1' : c + 2 ≤ t.exp := ht1 (by simp)
+    obtain ⟨h1, h2⟩ := addToCats_w c E cb t cats (hcb cb (by simp)) ht1' ht2 hinv
+    obtain ⟨i1, i2⟩ := ih (addToCats exactOps .precise c cb t cats) (fun x hx => hcb x (by simp [hx])) (fun _ => ht1') h2
     refine ⟨?_, i2⟩
     rw [List.foldl_cons, i1, h1]
     simp only [List.map_cons, List.sum_cons]
     ring
 
-/-- a row of the covered class: combos of the class, total between the working precision and `E` -/
-def RowOk (c E : ℕ) (rw : Row) : Prop :=
-  (∀ cb ∈ rw.taxes, ComboOk cb) ∧ c + 2 ≤ rw.total.exp ∧ rw.total.exp ≤ E
+/-- a prepared row of the covered class: combos of the class, total not finer than `E` and, when
+it carries combos, at least as fine as the working precision -/
+def RowOkP (c E : ℕ) (rw : Row) : Prop :=
+  (∀ cb ∈ rw.taxes, ComboOk cb) ∧ (rw.taxes ≠ [] → c + 2 ≤ rw.total.exp) ∧ rw.total.exp ≤ E
+
+/-- a row of the covered class (before `prepareLines`): combos of the class, total not finer than `E` -/
+def RowOk (E : ℕ) (rw : Row) : Prop :=
+  (∀ cb ∈ rw.taxes, ComboOk cb) ∧ rw.total.exp ≤ E
 
 theorem baseRateTotals_w (c E : ℕ) (rows : List Row) (cats : List CatTotal)
-    (hrows : ∀ rw ∈ rows, RowOk c E rw) (hinv : CatsInv c E cats) :
+    (hrows : ∀ rw ∈ rows, RowOkP c E rw) (hinv : CatsInv c E cats) :
     catsQ (rows.foldl (fun cats rw => rw.taxes.foldl (fun cats cb => addToCats exactOps .precise c cb rw.total cats) cats) cats) =
       catsQ cats + (rows.map (fun rw => rowQ rw.total.toRat rw.taxes)).sum ∧
     CatsInv c E (rows.foldl (fun cats rw => rw.taxes.foldl (fun cats cb => addToCats exactOps .precise c cb rw.total cats) cats) cats) := by
@@ -922,11 +1049,18 @@ theorem cats_w (c E : ℕ) (cats : List CatTotal) (hinv : CatsInv c E cats) (hc 
 
 /-! ### `taxTotal` as a whole -/
 
-theorem prepareRow_id (c E : ℕ) (rw : Row) (h : RowOk c E rw) : prepareRow c rw = rw := by
+theorem prepareRow_ok (c E : ℕ) (rw : Row) (h : RowOk E rw) (hE : c + 2 ≤ E) :
+    RowOkP c E (prepareRow c rw) ∧ (prepareRow c rw).total.toRat = rw.total.toRat ∧
+    (prepareRow c rw).taxes = rw.taxes := by
   unfold prepareRow
   split
-  · rfl
-  · rw [up_self _ _ (by simp only [Calc.E]; exact h.2.1)]
+  · rename_i he
+    have : rw.taxes = [] := by simpa using he
+    exact ⟨⟨h.1, fun hne => absurd this hne, h.2⟩, rfl, rfl⟩
+  · refine ⟨⟨h.1, fun _ => ?_, ?_⟩, up_toRat _ _, rfl⟩
+    · simp only [up_exp, Calc.E]; omega
+    · have := h.2
+      simp only [up_exp, Calc.E]; omega
 
 theorem rescaleX_zero (a : Amount) (c : ℕ) (h : a.value = 0) : (a.rescaleX c).toRat = 0 := by
   have ha : a.toRat = 0 := by unfold Amount.toRat; rw [h]; simp
@@ -962,29 +1096,39 @@ theorem precise_roundTax (c : ℕ) (cats : List CatTotal) (fs : Amount) :
 
 /-- **the working tax** (precise rule, prices not including tax, rows of the class): not finer
 than `E`, and within one half-unit per rate group of Σ rows' exact tax on the *working* row totals -/
-theorem taxTotal_w (c E : ℕ) (rows : List Row) (tx : TaxTotal) (hrows : ∀ rw ∈ rows, RowOk c E rw) (hc : c ≤ E)
+theorem taxTotal_w (c E : ℕ) (rows : List Row) (tx : TaxTotal) (hrows : ∀ rw ∈ rows, RowOk E rw) (hE : c + 2 ≤ E)
     (h : taxTotal exactOps .precise c none rows = .ok tx) :
     tx.precise.exp ≤ E ∧
     |tx.precise.toRat - (rows.map (fun rw => rowQ rw.total.toRat rw.taxes)).sum| ≤
       (groupsOf tx.cats : ℚ) * halfUlp (c + 2) := by
+  have hc : c ≤ E := by omega
   unfold taxTotal at h
   simp only at h
   injection h with h
-  have hmap : rows.map (prepareRow c) = rows := by
-    conv_rhs => rw [← List.map_id rows]
-    exact List.map_congr_left (fun rw hrw => prepareRow_id c E rw (hrows rw hrw))
-  rw [hmap] at h
-  obtain ⟨b1, b2⟩ := baseRateTotals_w c E rows [] hrows (fun _ hx => by simp at hx)
-  have hb : baseRateTotals exactOps .precise c rows =
-      rows.foldl (fun cats rw => rw.taxes.foldl (fun cats cb => addToCats exactOps .precise c cb rw.total cats) cats) [] := rfl
+  have hprep : ∀ rw ∈ rows.map (prepareRow c), RowOkP c E rw := by
+    intro rw hrw
+    simp only [List.mem_map] at hrw
+    obtain ⟨x, hx, rfl⟩ := hrw
+    exact (prepareRow_ok c E x (hrows x hx) hE).1
+  have hsame : ((rows.map (prepareRow c)).map (fun rw => rowQ rw.total.toRat rw.taxes)).sum =
+      (rows.map (fun rw => rowQ rw.total.toRat rw.taxes)).sum := by
+    rw [List.map_map]
+    congr 1
+    apply List.map_congr_left
+    intro x hx
+    obtain ⟨_, h2, h3⟩ := prepareRow_ok c E x (hrows x hx) hE
+    simp only [Function.comp, h2, h3]
+  obtain ⟨b1, b2⟩ := baseRateTotals_w c E (rows.map (prepareRow c)) [] hprep (fun _ hx => by simp at hx)
+  have hb : baseRateTotals exactOps .precise c (rows.map (prepareRow c)) =
+      (rows.map (prepareRow c)).foldl (fun cats rw => rw.taxes.foldl (fun cats cb => addToCats exactOps .precise c cb rw.total cats) cats) [] := rfl
   rw [← hb] at b1 b2
   obtain ⟨c1, c2, c3⟩ := cats_w c E _ b2 hc
-  obtain ⟨p1, p2, p3⟩ := precise_roundTax c ((baseRateTotals exactOps .precise c rows).map (catAmounts exactOps .precise c))
-    (finalSum exactOps .precise c ((baseRateTotals exactOps .precise c rows).map (catAmounts exactOps .precise c)))
+  obtain ⟨p1, p2, p3⟩ := precise_roundTax c ((baseRateTotals exactOps .precise c (rows.map (prepareRow c))).map (catAmounts exactOps .precise c))
+    (finalSum exactOps .precise c ((baseRateTotals exactOps .precise c (rows.map (prepareRow c))).map (catAmounts exactOps .precise c)))
   rw [h] at p1 p2 p3
   refine ⟨by omega, ?_⟩
   rw [p1, p3, c2]
-  rw [b1] at c3
+  rw [b1, hsame] at c3
   simpa [catsQ] using c3
 
 /-! ### the tax of a document of the class -/
@@ -1073,26 +1217,14 @@ theorem rel_mem (cur : String) (c : ℕ) (rates : List XRate) (ls ls' : List Lin
       exact ⟨y, by simp [hy], hr⟩
 
 /-- one document discount / charge against its exact value -/
-theorem docAdj_err (c : ℕ) (sum : Amount) (S W : ℚ) (x : DocAdj) (hx : PctOnly x) (hs : c + 2 ≤ sum.exp)
+theorem docAdj_err (c : ℕ) (sum : Amount) (S W : ℚ) (x : DocAdj) (hx : DocAdjOk c x) (hs : c + 2 ≤ sum.exp)
     (hS : |sum.toRat - S| ≤ W * halfUlp (c + 2)) :
     |(docAdj exactOps .precise c sum x).amount.toRat - Spec.C01.docAdjQ S x| ≤ (1 + W) * halfUlp (c + 2) := by
-  rw [docAdjQ_pct S x hx]
-  have h1 := (docAdj_pct c sum x hx (by omega)).2
-  have hh := halfUlp_mono _ _ hs
-  obtain ⟨p, hp, _, _, hle⟩ := hx
-  have hq : |pctQ x| ≤ 1 := by simpa [pctQ, hp] using hle
-  have e : (docAdj exactOps .precise c sum x).amount.toRat - S * pctQ x =
-      ((docAdj exactOps .precise c sum x).amount.toRat - sum.toRat * pctQ x) + (sum.toRat - S) * pctQ x := by ring
-  rw [e]
-  refine le_trans (abs_add_le _ _) ?_
-  have h2 : |(sum.toRat - S) * pctQ x| ≤ |sum.toRat - S| := by
-    rw [abs_mul]
-    calc |sum.toRat - S| * |pctQ x| ≤ |sum.toRat - S| * 1 := mul_le_mul_of_nonneg_left hq (abs_nonneg _)
-      _ = |sum.toRat - S| := mul_one _
+  have := (docAdj_ok c sum x hx hs S).2
   linarith
 
 theorem adjRows_err (c : ℕ) (sum : Amount) (S : ℚ) (W : ℕ) (xs : List DocAdj) (sgn : Bool)
-    (hx : ∀ x ∈ xs, PctOnly x) (htx : ∀ x ∈ xs, ∀ cb ∈ x.taxes, ComboOk cb) (hs : c + 2 ≤ sum.exp)
+    (hx : ∀ x ∈ xs, DocAdjOk c x) (htx : ∀ x ∈ xs, ∀ cb ∈ x.taxes, ComboOk cb) (hs : c + 2 ≤ sum.exp)
     (hS : |sum.toRat - S| ≤ (W : ℚ) * halfUlp (c + 2)) :
     |((xs.map (docAdj exactOps .precise c sum)).map
         (fun x => rowQ (if sgn then (neg x.amount).toRat else x.amount.toRat) x.taxes)).sum
@@ -1134,8 +1266,7 @@ theorem doc_tax_w (d : Doc) (p : Pre) (tx : TaxTotal) (hd : DocT d) (hpre : pre 
     |tx.precise.toRat - (Spec.C01.exactQ d).tax| ≤ (taxW d (groupsOf tx.cats) : ℚ) * halfUlp (d.c + 2) := by
   obtain ⟨hrel, hsum, hsexp, hS, hdis, hch, hrows, _, _⟩ := pre_spec d p hd.base hpre
   rw [hd.base.rule, hd.inc, hrows] at htx
-  have hcs : d.c ≤ p.sum.exp := by omega
-  have hrowsOk : ∀ rw ∈ taxRows p.lines p.discounts p.charges, RowOk d.c p.sum.exp rw := by
+  have hrowsOk : ∀ rw ∈ taxRows p.lines p.discounts p.charges, RowOk p.sum.exp rw := by
     intro rw hrw
     simp only [taxRows, List.mem_append, List.mem_filterMap, List.mem_map] at hrw
     rcases hrw with (⟨l', hl', hrw⟩ | ⟨x, hx, rfl⟩) | ⟨x, hx, rfl⟩
@@ -1143,21 +1274,21 @@ theorem doc_tax_w (d : Doc) (p : Pre) (tx : TaxTotal) (hd : DocT d) (hpre : pre 
       rw [ht] at hrw
       simp only [Option.map_some, Option.some.injEq] at hrw
       subst hrw
-      refine ⟨by simp only [htax]; exact hd.lineTaxes l hl, hte, ?_⟩
+      refine ⟨by simp only [htax]; exact hd.lineTaxes l hl, ?_⟩
       rw [hsum]
       unfold lineSum
       exact foldl_accum_exp_ge_mem _ ⟨0, d.c⟩ t (List.mem_filterMap.mpr ⟨l', hl', ht⟩)
     · rw [hdis] at hx
       simp only [List.mem_map] at hx
       obtain ⟨x0, hx0, rfl⟩ := hx
-      have he := (docAdj_pct d.c p.sum x0 (hd.base.discounts x0 hx0) hcs).1
-      refine ⟨by simp only [docAdj_taxes]; exact hd.discTaxes x0 hx0, ?_, ?_⟩ <;> simp only [neg_exp, he] <;> omega
+      have he := (docAdj_ok d.c p.sum x0 (hd.base.discounts x0 hx0) hsexp 0).1
+      exact ⟨by simp only [docAdj_taxes]; exact hd.discTaxes x0 hx0, by simp only [neg_exp]; exact he⟩
     · rw [hch] at hx
       simp only [List.mem_map] at hx
       obtain ⟨x0, hx0, rfl⟩ := hx
-      have he := (docAdj_pct d.c p.sum x0 (hd.base.charges x0 hx0) hcs).1
-      refine ⟨by simp only [docAdj_taxes]; exact hd.chTaxes x0 hx0, ?_, ?_⟩ <;> simp only [he] <;> omega
-  obtain ⟨t1, t2⟩ := taxTotal_w d.c p.sum.exp _ tx hrowsOk hcs htx
+      have he := (docAdj_ok d.c p.sum x0 (hd.base.charges x0 hx0) hsexp 0).1
+      exact ⟨by simp only [docAdj_taxes]; exact hd.chTaxes x0 hx0, he⟩
+  obtain ⟨t1, t2⟩ := taxTotal_w d.c p.sum.exp _ tx hrowsOk hsexp htx
   refine ⟨t1, ?_⟩
   rw [rows_sum] at t2
   rw [exactQ_tax d hd.inc]
@@ -1334,28 +1465,23 @@ theorem working_tax (d : Doc) (p : Pre) (tx : TaxTotal) (hd : DocT d) (hpre : pr
   obtain ⟨x1, x2⟩ := doc_tax_w d p tx hd hpre htx
   obtain ⟨f1, f2, f3, _, f5, f6, f7, f8, f9, f10⟩ := rawTotals_fields d p tx hinc
   have h0 := halfUlp_nonneg (d.c + 2)
-  have hcs' : d.c ≤ p.sum.exp := by omega
   have hh : halfUlp p.sum.exp ≤ halfUlp (d.c + 2) := halfUlp_mono _ _ hsexp
   -- discount and charge totals
   have hkd : (0 : ℚ) ≤ (d.discounts.length : ℚ) := by positivity
   have hkc : (0 : ℚ) ≤ (d.charges.length : ℚ) := by positivity
-  have hdq := (adjSum_pct d.c p.sum d.discounts hA.discounts hcs').2
-  have hcq := (adjSum_pct d.c p.sum d.charges hA.charges hcs').2
+  have hdq := (adjSum_ok d.c p.sum d.discounts (Spec.C01.exactQ d).sum hA.discounts hsexp).2
+  have hcq := (adjSum_ok d.c p.sum d.charges (Spec.C01.exactQ d).sum hA.charges hsexp).2
   rw [← hdis, ← hds] at hdq
   rw [← hch, ← hcs] at hcq
+  have hrow : |p.sum.toRat - (Spec.C01.exactQ d).sum| + halfUlp (d.c + 2) ≤
+      (1 + (sumW d.lines : ℚ)) * halfUlp (d.c + 2) := by linarith
   have hD : |optQ p.dsum - (Spec.C01.exactQ d).discount| ≤ (adjW (sumW d.lines) d.discounts.length : ℚ) * halfUlp (d.c + 2) := by
-    rw [exactQ_discount, docAdjQ_sum_pct _ _ hA.discounts]
-    have := adjTotal_err p.sum.toRat (Spec.C01.exactQ d).sum (d.discounts.map pctQ).sum (optQ p.dsum)
-      d.discounts.length (sumW d.lines) (halfUlp (d.c + 2)) hS
-      (le_trans hdq (mul_le_mul_of_nonneg_left hh hkd)) (pctQ_sum_abs _ hA.discounts) h0 (by positivity)
-    refine le_trans this (le_of_eq ?_)
+    rw [exactQ_discount]
+    refine le_trans (le_trans hdq (mul_le_mul_of_nonneg_left hrow hkd)) (le_of_eq ?_)
     unfold adjW; push_cast; ring
   have hC : |optQ p.csum - (Spec.C01.exactQ d).charge| ≤ (adjW (sumW d.lines) d.charges.length : ℚ) * halfUlp (d.c + 2) := by
-    rw [exactQ_charge, docAdjQ_sum_pct _ _ hA.charges]
-    have := adjTotal_err p.sum.toRat (Spec.C01.exactQ d).sum (d.charges.map pctQ).sum (optQ p.csum)
-      d.charges.length (sumW d.lines) (halfUlp (d.c + 2)) hS
-      (le_trans hcq (mul_le_mul_of_nonneg_left hh hkc)) (pctQ_sum_abs _ hA.charges) h0 (by positivity)
-    refine le_trans this (le_of_eq ?_)
+    rw [exactQ_charge]
+    refine le_trans (le_trans hcq (mul_le_mul_of_nonneg_left hrow hkc)) (le_of_eq ?_)
     unfold adjW; push_cast; ring
   -- total
   have hT : |p.total2.toRat - (Spec.C01.exactQ d).total| ≤ (totalW d : ℚ) * halfUlp (d.c + 2) := by
